@@ -1116,7 +1116,8 @@ impl Serialize for NonNegativeIntegerOrFloat {
     where
         S: Serializer,
     {
-        if self.is_integer() {
+        // `as i32` saturates: values above the i32 range are written as floats.
+        if self.is_integer() && self.0 <= i32::MAX as f64 {
             serializer.serialize_i32(self.0 as i32)
         } else {
             serializer.serialize_f64(self.0)
